@@ -219,6 +219,7 @@ def gen(rng, focus, k=None, maxops=40):
             for u in live:
                 emit(f"user 0 @{u}")        # status and the whole permission record, before and after
             emit("pats 0")
+            emit("created 0")
             emit("restart")
             conns = {0: "iggy"}
             emit("me 0")
@@ -226,6 +227,7 @@ def gen(rng, focus, k=None, maxops=40):
             for u in live:
                 emit(f"user 0 @{u}")
             emit("pats 0")
+            emit("created 0")
     # secrets must not be in any file
     for pw in secrets[:6]:
         emit(f"scan-str {pw}")
